@@ -157,14 +157,17 @@ func (p *Parser) parseHeader(data []byte) (header *parser.PacketHeader, buf []by
 		found = false
 
 		for ; end < len(data); end++ {
-			c := data[end]
+			if data[end] != '"' {
+				continue
+			}
 			// A quote ends the string unless it is escaped, i.e. preceded by an odd number of backslashes
 			// (an even run is made of escaped backslashes, as in an event name ending with a backslash).
+			// The run is counted at quotes only: every byte is looked at a bounded number of times.
 			backslashes := 0
 			for k := end - 1; k > start && data[k] == '\\'; k-- {
 				backslashes++
 			}
-			if c == '"' && backslashes%2 == 0 {
+			if backslashes%2 == 0 {
 				b := data[start : end+1]
 
 				tmp = make([]byte, len(b)+2)
